@@ -59,6 +59,29 @@ def real_policy_round_trip(tier, seed):
                     fails.append('encrypted %s value %r came back as %r' % (cql, v, m.parsed_rows))
             except Exception as e:
                 fails.append('decoding the encrypted %s value %r raised %r' % (cql, v, e))
+    # two encrypted columns of different types and keys (and a plain one) in one result
+    pol2 = AES256ColumnEncryptionPolicy(iv=bytes(range(16)))
+    ca, cb = ColDesc('ks', 'tb', 'a'), ColDesc('ks', 'tb', 'b')
+    pol2.add_column(ca, bytes(range(32)), 'int')
+    pol2.add_column(cb, bytes(range(32, 64)), 'text')
+    for va, vb in ((7, 'abcd'), (None, 'x' * 16), (-1, None), (None, None), (2 ** 31 - 1, '')):
+        n += 1
+        cells = []
+        for cd, typ, v in ((ca, Int32Type, va), (None, Int32Type, 5), (cb, UTF8Type, vb)):
+            if v is None:
+                cells.append(struct.pack('>i', -1))
+            else:
+                b = typ.serialize(v, 4)
+                b = pol2.encrypt(cd, b) if cd is not None else b
+                cells.append(struct.pack('>i', len(b)) + b)
+        meta = struct.pack('>ii', 1, 3) + _s('ks') + _s('tb') + _s('a') + struct.pack('>H', 3) + _s('plain') + struct.pack('>H', 9) + _s('b') + struct.pack('>H', 3)
+        body = struct.pack('>i', 2) + meta + struct.pack('>i', 1) + b''.join(cells)
+        try:
+            m = ResultMessage.recv_body(io.BytesIO(body), 4, {}, None, pol2)
+            if m.parsed_rows != [(va, 5, vb)]:
+                fails.append('two encrypted columns (int %r, text %r) came back as %r' % (va, vb, m.parsed_rows))
+        except Exception as e:
+            fails.append('two encrypted columns (int %r, text %r): decoding raised %r' % (va, vb, e))
     return {'name': 'real-aes-policy-round-trip', 'kind': 'bounded', 'cases': n, 'evaluations': n, 'distinct_nontrivial': n,
             'rule': 'E-AES probe: decrypt(encrypt(b)) == b for the real policy; bind -> ROWS body -> recv_body returns the bound value (None included)',
             'bound': 'byte strings of every length 0..48; int / text / blob encrypted columns with 6 values each (incl. 0, empty, block-aligned lengths) and null', 'violations': fails[:3]}
